@@ -35,12 +35,11 @@ BranchOK(pages) == \A i \in 1..Len(pages) : pages[i].kind = "branch" => pages[i]
 LeafOK(pages) == \A i \in 1..Len(pages) : (pages[i].kind = "leaf" /\ ~pages[i].root) => pages[i].count >= 1
 \* exactly one root page per paged bucket, on level 1
 RootOK(pages) == \A i \in 1..Len(pages) : pages[i].root = (pages[i].depth = 1)
-\* inline buckets (bucket.go:804-850): small, bucket-free, a single leaf; and nothing that could be inline is paged
+\* inline buckets (bucket.go:804-850): small, bucket-free, a single leaf.  (The converse - nothing that could be
+\* inline is left paged - was observed on every generated file but is a space optimisation, not a promise.)
 InlineOK(buckets, ps) ==
    \A i \in 1..Len(buckets) :
-      LET b == buckets[i] IN
-      /\ (b.inline => (~b.nested /\ b.size <= ps \div 4 /\ b.rootLeaf))
-      /\ ((~b.inline /\ b.rootLeaf /\ ~b.nested /\ b.size <= ps \div 4) => b.keys = 0 \/ FALSE)
+      LET b == buckets[i] IN b.inline => (~b.nested /\ b.size <= ps \div 4 /\ b.rootLeaf)
 
 ShapeOK(pages, buckets, ps) ==
    /\ FitsOK(pages) /\ BalancedOK(pages) /\ BranchOK(pages) /\ LeafOK(pages) /\ RootOK(pages) /\ InlineOK(buckets, ps)
